@@ -36,13 +36,19 @@ impl VxEcuMap {
 #[verifier::external_body]
 pub struct NVArgsIterator { _p: u8 }
 impl NVArgsIterator {
+    // the iterator slices `byte_length` bytes out of the payload, PDU by PDU (NVArgsIterator::next): its caller has to hand it at least
+    // that many (the frame's own consistency - the PDU lengths add up to byte_length - is ASSUMED, it comes from the FIBEX reader)
     #[verifier::external_body]
-    pub fn new(frame: &NVFrame, is_big_endian: bool, msg_payload: &[u8]) -> (r: NVArgsIterator) { unimplemented!() }
+    pub fn new(frame: &NVFrame, is_big_endian: bool, msg_payload: &[u8]) -> (r: NVArgsIterator)
+        requires msg_payload@.len() >= frame.byte_length, // O:nv.payload_covers_frame
+    { unimplemented!() }
 }
 #[verifier::external_body]
 pub struct VxFmtError { _p: u8 }
-#[verifier::external_body]
-pub fn vx_process_msg_arg_iter(args: NVArgsIterator, text: &mut String) -> (r: Result<(), VxFmtError>) { unimplemented!() }
+impl DltMessage {
+    #[verifier::external_body]
+    pub fn process_msg_arg_iter(args: NVArgsIterator, text: &mut String) -> (r: Result<(), VxFmtError>) { unimplemented!() }
+}
 #[verifier::external_body]
 pub fn vx_string_with_capacity(n: usize) -> (r: String) { String::with_capacity(n) }
 // `&a.payload_raw[4..]`
@@ -65,7 +71,6 @@ pub open spec fn decoded_only(a: DltMessage, b: DltMessage) -> bool {
 //@   sub R3 `vx_u32_from_le_bytes(a.payload_raw.get(0..4).unwrap().try_into().unwrap())` => `vx_u32_from_le_slice(vx_slice_get_0_4(a.payload_raw).unwrap())`
 //@   sub R11 `&a.payload_raw[4..]` => `vx_slice_from_4(a.payload_raw)`
 //@   sub R11 `String::with_capacity(256)` => `vx_string_with_capacity(256)`
-//@   sub R11 `DltMessage::process_msg_arg_iter(args, &mut text)` => `vx_process_msg_arg_iter(args, &mut text)`
 //@   sub R11 `ext_header.to_owned()` => `vx_clone_ext_header(ext_header)`
 //@   spec
 //@|    requires old(msg).payload@.len() + 0x20000 <= usize::MAX,
